@@ -3,6 +3,7 @@ package chk
 import (
 	"go/token"
 	"sort"
+	"strings"
 
 	"golang.org/x/tools/go/ssa"
 )
@@ -24,10 +25,15 @@ func isNowCall(c *ssa.CallCommon) bool {
 // Closure returns the in-scope functions reachable from the entries through the call graph
 // (VTA), including closures created by reached functions. Calls through Now are not followed.
 func (p *Prog) Closure(entries []*ssa.Function) []*ssa.Function {
+	return p.closureExcluding(entries, nil)
+}
+
+// closureExcluding: Closure without following the excluded functions.
+func (p *Prog) closureExcluding(entries []*ssa.Function, exclude map[*ssa.Function]bool) []*ssa.Function {
 	seen := map[*ssa.Function]bool{}
 	var work []*ssa.Function
 	push := func(f *ssa.Function) {
-		if f != nil && p.inScope(f) && !seen[f] {
+		if f != nil && p.inScope(f) && !seen[f] && !exclude[f] {
 			seen[f] = true
 			work = append(work, f)
 		}
@@ -131,8 +137,37 @@ func loopOf(h *ssa.BasicBlock) map[*ssa.BasicBlock]bool {
 // rule about "what fn does" has to look at, so that extracting part of fn into a helper does not
 // hide it.
 func (p *Prog) Helpers(fn *ssa.Function) []*ssa.Function {
+	// A function literal written in a function fn does not reach can only arrive through a function-valued
+	// parameter that another caller fills (the call graph is not context-sensitive): it is that caller's code, not
+	// something fn does.  Literals of package-level tables (written in init) stay.
+	exclude := map[*ssa.Function]bool{}
+	var set []*ssa.Function
+	for round := 0; round < 4; round++ {
+		set = p.closureExcluding([]*ssa.Function{fn}, exclude)
+		in := map[*ssa.Function]bool{}
+		for _, f := range set {
+			in[f] = true
+		}
+		grew := false
+		for _, f := range set {
+			if f.Parent() == nil {
+				continue
+			}
+			top := f
+			for top.Parent() != nil {
+				top = top.Parent()
+			}
+			if !in[top] && top.Name() != "init" && !strings.HasPrefix(top.Name(), "init#") {
+				exclude[f] = true
+				grew = true
+			}
+		}
+		if !grew {
+			break
+		}
+	}
 	var out []*ssa.Function
-	for _, f := range p.Closure([]*ssa.Function{fn}) {
+	for _, f := range set {
 		if fnPkg(f) == p.LibSSA || fnPkg(f) == p.CLISSA {
 			out = append(out, f)
 		}
